@@ -165,6 +165,7 @@ def _step_layer(desc, layer, x):
     """-> (outputs dict name->tensor, intermediates dict or None)"""
     kind, cap = desc["kind"], desc["capture"]
     nkw = desc.get("nkw")
+    _NKW = desc.get("nkw_dict") or globals()["_NKW"]     # C11 routes adapt=False to every neuron group this way
     if kind == "serial":
         kw = {"offset": 1.5} if desc["transform"] == "offset_kw" else {}
         if nkw:
@@ -172,7 +173,7 @@ def _step_layer(desc, layer, x):
         r = layer(*x, capture_intermediate=cap, **kw)
         return ({"serial": r[0]}, {"serial": r[1]}) if cap else ({"serial": r}, None)
     if kind == "biclique":
-        kw = {"neuron_kwargs": {"n0": dict(_NKW)}} if nkw else {}
+        kw = {"neuron_kwargs": {n: dict(_NKW) for n in (layer.neurons_ if desc.get("nkw_all") else ["n0"])}} if nkw else {}
         r = layer(x, capture_intermediate=cap, **kw)
         return (r[0], r[1]) if cap else (r, None)
     kw = {"feedback_neuron_kwargs": dict(_NKW), "feedfwd_neuron_kwargs": dict(_NKW)} if nkw else {}
